@@ -358,7 +358,7 @@ PAIRS = [
                  "same three values, different setter signature (growth array instead of reward infos)",
                  r"^update_liquidity_and_reward_growth_global\(whirlpool, modify_liquidity_update\.whirlpool_liquidity, modify_liquidity_update\.next_reward_growth_global, reward_last_updated_timestamp\)$": "same"}),
     dict(a="state::tick::Tick::check_is_out_of_bounds", b=PTA + "check_is_out_of_bounds"),
-    dict(a="state::tick_array::TickArrayType::in_search_range", b=PTA + "TickArray::in_search_range"),
+    dict(a="state::tick_array::TickArrayType::in_search_range", b=PTA + "TickArray::in_search_range", semantic="search_range"),
     dict(a="state::tick_array::TickArrayType::check_in_array_bounds", b=PTA + "TickArray::check_in_array_bounds"),
     dict(a="state::tick_array::TickArrayType::is_min_tick_array", b=PTA + "TickArray::is_min_tick_array"),
     dict(a="state::tick_array::TickArrayType::is_max_tick_array", b=PTA + "TickArray::is_max_tick_array"),
@@ -436,7 +436,26 @@ def _with_unshared_callees_inlined(facts, a, b):
     return inl(a, nb_), inl(b, na_)
 
 
-def compare_pair(run, rule, a_path, b_path, keys=ALL, subs_b=(), exempt=(), subs_a=(), norm_a=None, norm_b=None):
+def _has_loop(fn):
+    succ = fn.succ()
+    return any(b in cfg.reach(fn, s_) for b in range(len(fn.blocks)) for s_ in succ[b])
+
+
+def _same_search_range(a, b):
+    """Both sides accept the same interval (polynomial bounds over start index and spacing) for both values of `shifted`."""
+    from rules.ranges import search_range_bounds
+    for s_ in (False, True):
+        ga, wa = search_range_bounds(a, s_)
+        gb, wb = search_range_bounds(b, s_)
+        if not ga or set(ga) != {"Ge", "Lt"} or ga != gb or wa or wb:
+            return False
+    return True
+
+
+SEMANTIC = {"search_range": _same_search_range}
+
+
+def compare_pair(run, rule, a_path, b_path, keys=ALL, subs_b=(), exempt=(), subs_a=(), norm_a=None, norm_b=None, semantic=None):
     facts = run.facts
     a, b = facts.fn(a_path), facts.fn(b_path)
     inst = "%s~%s" % (a_path.rsplit("::", 1)[-1], b_path.rsplit("::", 1)[-1])
@@ -465,6 +484,16 @@ def compare_pair(run, rule, a_path, b_path, keys=ALL, subs_b=(), exempt=(), subs
             if not d2:
                 sa, sb, d = sa2, sb2, d2
                 break
+    if d and (_has_loop(a) or _has_loop(b)):
+        # loops are compared by their recurrences: loop-carried locals stay variables, their definitions are compared as a set
+        sa2 = _norm_returns(_apply(S.summary(a, na, cut="loop"), list(subs_a)))
+        sb2 = _norm_returns(_apply(S.summary(b, nb, cut="loop"), list(subs_b)))
+        d2 = S.diff(sa2, sb2, tuple(keys) + ("vardefs",), exempt=list(exempt))
+        if not d2:
+            sa, sb, d = sa2, sb2, d2
+    if d and semantic and SEMANTIC[semantic](a, b):
+        run.ok(rule, inst, detail="written differently; both sides decide the same %s (compared as polynomial bounds)" % semantic)
+        return
     if not d:
         run.ok(rule, inst, detail="%s equal after the name map (%s)" % ("/".join(keys), ", ".join("%d %s" % (len(sa[k]), k) for k in keys)))
         return
@@ -489,7 +518,7 @@ def R5_ported_pairs(run):
                     "the same returned terms as its Anchor original, after the explicit name map; exemptions are listed one by one")
     for pr in PAIRS:
         compare_pair(run, "R5", pr["a"], pr["b"], keys=pr.get("keys", ALL), subs_b=pr.get("subs_b", ()), exempt=pr.get("exempt", {}),
-                     norm_a=pr.get("na"), norm_b=pr.get("nb"))
+                     norm_a=pr.get("na"), norm_b=pr.get("nb"), semantic=pr.get("semantic"))
     run.floor("R5", "ported pairs", len(PAIRS), 25)
 
 
